@@ -320,6 +320,7 @@ def run(ctx):
     streams.append(order_stream(ctx))
     streams.append(foreign_schema_stream(ctx))
     streams.append(views_and_copies_stream(ctx))
+    streams.append(caller_inputs_stream(ctx))
     return streams
 
 
@@ -471,6 +472,101 @@ def views_and_copies_stream(ctx):
                                op, "deep-copied from / to it" if how == "deepcopy" else "given its list view"),
                            "views-and-copies/" + ("deepcopy" if how == "deepcopy" else "view"))
                     break
+    return v
+
+
+def caller_inputs_stream(ctx):
+    """Values a caller hands to records as plain dicts / lists (a component by name, the occurrences of a repeated
+    field as dicts or lists, through the constructor, an attribute, an index or a list operation): the caller's object
+    is the same afterwards, and a second record given the very same object renders like the first (nothing of the first
+    use is left in, or taken out of, the object that both share)."""
+    v = Stream("caller-owned-inputs")
+    r = ctx.rng("C20.inputs")
+    per = 24 if ctx.thorough else 5
+    for module, letter, spec in schemaio.record_specs():
+        cls = schemaio.real_class(module, letter)
+        fs = [f for f in spec["fields"] if f["shape"] in ("component", "repeated") and f.get("sub")]
+        if cls is None or not fs:
+            continue
+        names = [f["name"] for f in spec["fields"]]
+        for _ in range(per):
+            f = r.choice(fs)
+            sub_names = [sb["name"] for sb in f["sub"]]
+
+            def one():
+                items, _ = schemaio.gen_component(r, f["sub"], force=True)
+                if r.random() < 0.6:
+                    return dict((n, x) for n, x in zip(sub_names, items) if x is not None or r.random() < 0.5)
+                return list(items)
+            if f["shape"] == "component":
+                value = one()
+                routes = ["attr", "kw", "pos", "index"]
+            else:
+                value = [one() for _k in range(r.randrange(1, 4))]
+                routes = ["attr", "kw", "pos", "index", "append", "extend", "insert", "iadd"]
+            route = r.choice(routes)
+            before = copy.deepcopy(value)
+            case = {"module": module, "letter": letter, "field": f["name"], "route": route, "value": repr(before)[:300]}
+
+            def give(val):
+                i = names.index(f["name"])
+                if route == "attr":
+                    rec = cls()
+                    setattr(rec, f["name"], val)
+                elif route == "kw":
+                    rec = cls(**{f["name"]: val})
+                elif route == "pos":
+                    rec = cls(*([None] * i + [val]))
+                elif route == "index":
+                    rec = cls()
+                    rec[i] = val
+                else:
+                    rec = cls()
+                    setattr(rec, f["name"], [])
+                    lst = getattr(rec, f["name"])
+                    if route == "append":
+                        for x in val:
+                            lst.append(x)
+                    elif route == "extend":
+                        lst.extend(val)
+                    elif route == "insert":
+                        for x in reversed(val):
+                            lst.insert(0, x)
+                    else:
+                        lst += val
+                return rec
+            try:
+                a = give(value)
+                da = a.to_dict()[f["name"]]
+            except Exception:
+                continue          # (not every generated value is admissible through every route)
+            v.case(case, nontrivial=any(isinstance(x, dict) for x in ([value] if f["shape"] == "component" else value)))
+            v.count(route)
+            if value != before:
+                v.fail(dict(case, afterwards=repr(value)[:300]), "the caller's %s was changed by giving it to a record"
+                       % type(value).__name__, "caller-owned-inputs/input-changed")
+                continue
+            try:
+                b = give(value)
+                db = b.to_dict()[f["name"]]
+            except Exception as e:  # noqa
+                db = "raises %s" % type(e).__name__
+            if db != da:
+                v.fail(dict(case, first=repr(da)[:300], second=repr(db)[:300]),
+                       "a second record given the same object does not render like the first", "caller-owned-inputs/second-use")
+                continue
+            # the first record is not touched by what the second one does with its own copy
+            try:
+                tgt = getattr(b, f["name"])
+                if f["shape"] == "repeated" and tgt:
+                    tgt = tgt[0]
+                for sb in text_subs(f)[:2]:
+                    setattr(tgt, sb["name"], "CHANGED")
+                if a.to_dict()[f["name"]] != da:
+                    v.fail(dict(case), "changing the second record's value changed the first record",
+                           "caller-owned-inputs/shared")
+            except Exception:
+                pass
     return v
 
 
@@ -643,6 +739,12 @@ def foreign_schema_stream(ctx):
                 obj.to_astm()
             except Exception:
                 pass
+    # the last things the site does are the narrowest ones (whatever they install process-wide stays installed)
+    for kw_ in ({"flag1": "A"}, {"num": 1}, {"t2": "x"}, {"c": ["abc", "1", "x", "1"]}):
+        try:
+            Rec(**kw_).to_dict()
+        except Exception:
+            pass
     # a schema of the site that declares *values* as the default of a component: records built without that component
     # each have their own; changing one changes neither another record nor what later records start with
     try:
